@@ -404,7 +404,7 @@ func (g *Gen) transCall(x *Expr, env *Env) TV {
 		return TV{and(not(eq(a.T, "0")), eq("(dyntype "+a.T+")", g.typeID(t))), SBool, nil}
 	case "allocated":
 		a := g.trans(x.Args[0], env)
-		return TV{"(<= (atime " + a.T + ") " + env.heap(g.allocHeap()) + ")", SBool, nil}
+		return TV{and(not(eq(a.T, "0")), "(<= (atime "+a.T+") "+env.heap(g.allocHeap())+")"), SBool, nil}
 	case "fresh":
 		a := g.trans(x.Args[0], env)
 		if env.old == nil {
@@ -432,6 +432,12 @@ func (g *Gen) transCall(x *Expr, env *Env) TV {
 	case "fmtany":
 		a := g.trans(x.Args[0], env)
 		return TV{"(fmt.any " + a.T + ")", SStr, types.Typ[types.String]}
+	case "arrof":
+		a := g.trans(x.Args[0], env)
+		if a.S != SSlc {
+			panic(specErr(x, "arrof needs a slice"))
+		}
+		return TV{"(sl_arr " + a.T + ")", SInt, nil}
 	case "kept":
 		// kept("A.string"): every object that was allocated on entry has the same content in this heap
 		if env.old == nil {
